@@ -422,3 +422,14 @@ def check_C13(tier, seed):
 
 def check_C14(tier, seed):
     return run_sock_check("C14", tier, seed)
+
+
+def _replay_judge(prop, case, obs):
+    if case.startswith("Q "):
+        from . import queue as queue_driver
+        return [m for p, m in queue_driver.judge(case, obs) if p == prop]
+    return [m for p, m in judge(case, obs) if p == prop]
+
+
+def replay(prop, data):
+    return common.replay_case(prop, data, "sock", _replay_judge)
